@@ -88,6 +88,11 @@ const (
 // everything else (GOROOT, /etc/mime.types, sockets, pipes, stdio) passes untouched.
 type FS struct {
 	Root string
+	// Other, when set, is a second owned directory that stands for another mounted file
+	// system (the process's TMPDIR). With CrossDevice set, a rename or hard link from one
+	// to the other fails with EXDEV, as it does between two real mounts.
+	Other       string
+	CrossDevice bool
 	// Handler is called for every owned operation that is not suppressed by the freeze.
 	// It may block (a scheduling point). nil = pass.
 	Handler func(op Op) Decision
@@ -151,7 +156,18 @@ func fdPath(fd int) string {
 const atFDCWD = -100
 
 func (fs *FS) owns(p string) bool {
-	return p == fs.Root || strings.HasPrefix(p, fs.Root+"/")
+	return fs.mount(p) != 0
+}
+
+// mount tells which of the two simulated file systems a path is on (0: neither).
+func (fs *FS) mount(p string) int {
+	switch {
+	case p == fs.Root || strings.HasPrefix(p, fs.Root+"/"):
+		return 1
+	case fs.Other != "" && (p == fs.Other || strings.HasPrefix(p, fs.Other+"/")):
+		return 2
+	}
+	return 0
 }
 
 func hook(op string, fd int, path, path2 string, n int, flags int) Decision {
@@ -200,6 +216,9 @@ func hook(op string, fd int, path, path2 string, n int, flags int) Decision {
 	}
 	h := fs.Handler
 	fs.mu.Unlock()
+	if fs.CrossDevice && !frozen && (op == "renameat" || op == "linkat") && path2 != "" && fs.mount(full) != fs.mount(path2) {
+		return Decision{Mode: Fail, Err: syscall.EXDEV}
+	}
 	if frozen {
 		if o.Mutating() || (op == "openat" && flags&syscall.O_ACCMODE != syscall.O_RDONLY) {
 			return Decision{Mode: Fail, Err: syscall.EIO}
